@@ -213,3 +213,54 @@ rule('C12.14')(c13.memo_invalidation)
 rule('C12.15')(c01.path_keeps_every_part)          # Path('*', 'k') addresses the key '*', not every child
 rule('C13.16')(c14.default_registration_order)     # a more specific registered type is never shadowed by a predicate type
 rule('C20.22')(c16.item_loop)                      # every Group evaluation starts from its own empty container
+
+
+# round-7 seeds: clauses shared between properties
+rule('C05.20')(c04.raise_discipline)               # the error glom() raises can render its message (the original is remembered)
+from .common import attributes_stored_once, wrappers_forward_their_parameters
+
+
+def _once(modules, classes=None):
+    def attributes_stored_once_here(ctx):
+        n = attributes_stored_once(ctx, modules, classes)
+        ctx.ob(n >= 1, 'package', 'constructor attributes examined: %d' % n)
+    attributes_stored_once_here.__doc__ = attributes_stored_once.__doc__
+    attributes_stored_once_here.__name__ = 'attributes_stored_once'
+    return attributes_stored_once_here
+
+
+def _forward(quals):
+    def wrappers_forward_here(ctx):
+        n = wrappers_forward_their_parameters(ctx, quals)
+        ctx.ob(n >= 2, 'package', 'wrapper parameters examined: %d' % n)
+    wrappers_forward_here.__doc__ = wrappers_forward_their_parameters.__doc__
+    wrappers_forward_here.__name__ = 'wrappers_forward_their_parameters'
+    return wrappers_forward_here
+
+
+rule('C11.19')(_once(('mutation',), ('Assign',)))
+rule('C12.16')(_once(('mutation',), ('Delete',)))
+rule('C03.20')(_once(('core',), ('Coalesce', 'Call', 'Invoke', 'Ref', 'Spec', 'Val', 'Auto', 'Fill', 'Pipe', 'Inspect', 'Let')))
+rule('C09.19')(_once(('matching',), ('Match', 'Regex', 'Optional', 'Required')))
+rule('C10.14')(_once(('matching',), ('_Bool', 'And', 'Or', 'Not', '_MSubspec', '_MExpr', 'Switch', 'Check')))
+rule('C15.12')(_once(('reduction',)))
+rule('C16.12')(_once(('grouping',)))
+rule('C17.12')(_once(('streaming',)))
+rule('C13.18')(_forward(('core.register', 'core.register_op', 'core.Glommer.register')))
+rule('C01.17')(c13.register_stores)                 # an exact registration of a Glommer does not serve subclass instances
+rule('C03.21')(c13.memo_invalidation)               # the iterate handler of a list spec follows a later registration
+rule('C14.16')(c13.memo_invalidation)               # ... and so do the keys / iterate handlers the wildcards enumerate with
+rule('C04.24')(c12.miss_classes)                    # a deletion fault is reported whatever the truth value of the exception object
+rule('C08.17')(c16.per_evaluation_accumulators)     # a nested Group arms its own aggregation tripwire
+rule('C15.13')(c16.per_evaluation_accumulators)
+rule('C08.18')(c03.spec_predicate)                  # a spec class used as a value is a literal in argument position
+rule('C09.20')(c10.overloads)                       # & builds a new pattern: the operands keep their meaning
+rule('C09.21')(c06.specs_not_written)
+rule('C11.20')(c13.memo_key)                        # the assign handler is memoised per (type, op), not per type
+rule('C12.17')(c01.default_accessors)               # a missing parent key in an OrderedDict raises (PathAccessError, not None)
+rule('C12.18')(c14.object_keys_predicate_is_duck_typed)   # wildcard deletes through a class used as a namespace
+rule('C13.19')(c14.object_keys_predicate_is_duck_typed)   # the duck type does not depend on the instance (memoised per type)
+rule('C17.13')(c10.defaults)                        # filter's Check(key, default=SKIP) rejects only what fails the check
+rule('C20.23')(c07.own_frame_writes)                # no evaluation writes into the process-wide default scope
+rule('C09.22')(c04.error_construction_is_total)     # a rejection can always be built (and so is a MatchError, not what building it raised)
+rule('C10.16')(c04.error_construction_is_total)
